@@ -302,3 +302,253 @@ Proof.
   all: try (unfold raw_of, core, dstp; cbn [p_kind p_size]; exact ER).
   exists ([core dstp] ++ eo), (ep ++ pads'). rewrite !app_assoc. split; [exact H'|exact C2].
 Qed.
+
+(* ------------------------------------------------------------------ writePtr: the list copy *)
+Lemma flat_map_nil {A B} (l : list A) : flat_map (fun _ : A => @nil B) l = [].
+Proof. induction l; auto. Qed.
+
+(* sizes of a table list *)
+Lemma list_obj_facts m objs pads h :
+  hinv m objs pads -> In h objs -> p_kind h = KList ->
+  0 <= obj_bytes h <= 4294967288 /\ wf_size (p_size h) /\
+  (p_comp h = true -> obj_bytes h = 8 + 8 * (p_len h * wc_of h) /\ 0 <= p_len h * wc_of h /\ 8 <= p_off h) /\
+  (p_bit h = true \/ PointerCount (p_size h) = 0 -> slots h = []).
+Proof.
+  intros H Hh Ek. destruct (hi_good _ _ _ H h Hh) as [V G]. pose proof G as (Sh & _ & Gi & _).
+  destruct (in_seg_elim _ _ _ _ Gi) as (G1 & G2 & G3 & G4 & G5). rewrite seg_len_bm in G4.
+  pose proof (hi_small _ _ _ H (p_seg h)) as Hsm. unfold maxSegmentSize in Hsm.
+  unfold shape_ok in Sh. rewrite Ek in Sh. destruct Sh as (Hn & [(Hc & Hk)|(Hc & Hb & Hw & Ht)]).
+  - assert (OB := list_alloc_eq h V (proj1 G) Ek Hc).
+    destruct Hk as [[Hb Hsz]|[Hb Hsz]]; rewrite Hb in OB.
+    + rewrite OB. unfold bitListSize, u32. split; [lia|]. split; [rewrite Hsz; unfold wf_size; cbn; lia|]. split; [congruence|].
+      intros _. unfold slots, tgt_of, et_of. rewrite Ek, Hc, Hb. reflexivity.
+    + destruct Hsz as [Hsz|(d & Hsz & Hd)]; rewrite Hsz in OB; cbn [DataSize PointerCount] in OB.
+      * rewrite OB. split; [lia|]. split; [rewrite Hsz; unfold wf_size; cbn; lia|]. split; [congruence|].
+        intros [X|X]; [congruence|rewrite Hsz in X; discriminate X].
+      * assert (K : 0 <= d * p_len h <= 4294967288) by nia.
+        rewrite OB. replace ((d + 8 * 0) * p_len h) with (d * p_len h) by ring.
+        split; [lia|]. split; [rewrite Hsz; unfold wf_size; cbn; lia|]. split; [congruence|].
+        intros _. unfold slots, tgt_of, et_of. rewrite Ek, Hc, Hb, Hsz. cbn [PointerCount DataSize children].
+        change (0 =? 1) with false. cbv iota zeta.
+        destruct Hd as [->|[->|[->|[->| ->]]]]; reflexivity.
+  - assert (W0 : 0 <= wc_of h) by (unfold wc_of; destruct Hw as (Hd & Hm & Hp); lia).
+    assert (K0 : 0 <= p_len h * wc_of h) by nia.
+    assert (OB : obj_bytes h = 8 + 8 * (p_len h * wc_of h)).
+    { unfold obj_bytes. rewrite Ek. apply list_alloc_comp; auto; lia. }
+    rewrite OB. split; [lia|]. split; [destruct Hw as (Hd & Hm & Hp); unfold wf_size; lia|].
+    split.
+    + intros _. split; [reflexivity|]. split; [exact K0|]. unfold obj_start in G2. rewrite Hc in G2. lia.
+    + intros [X|X]; [congruence|]. unfold slots, tgt_of. rewrite Ek, Hc, X. cbn [children Z.to_nat zseq seq map].
+      apply flat_map_nil.
+Qed.
+
+(* List.Struct(i) of a table list is a view *)
+Lemma list_struct_view objs p i e :
+  In (core p) objs -> p_valid p = true -> p_kind p = KList -> list_struct true p i = Ok e ->
+  view objs e /\ (p_valid e = true -> p_kind e = KStruct /\ p_seg e = p_seg p /\ p_size e = p_size p).
+Proof.
+  intros Hin Hv Ek ELS. unfold list_struct in ELS. rewrite Hv in ELS. cbn [negb orb] in ELS.
+  destruct ((i <? 0) || (i >=? p_len p)) eqn:EI; [discriminate|].
+  destruct (p_bit p) eqn:EB; [apply Ok_inj in ELS; subst e; split; [apply view_null|discriminate]|].
+  destruct (element (p_off p) i (totalSize (p_size p))) as [a0|] eqn:EE; [|apply Ok_inj in ELS; subst e; split; [apply view_null|discriminate]].
+  apply element_spec in EE. destruct EE as [Ead _]. apply Ok_inj in ELS. subst e. split.
+  - right. right. left. exists (core p), i. split; [exact Hin|].
+    unfold member_at. cbn [core p_kind p_bit p_len p_valid p_seg p_off p_size p_member]. repeat split; auto; lia.
+  - intros _. cbn. auto.
+Qed.
+
+Lemma list_copy f : Q_cs f -> forall w objs pads q src w',
+  tinv w objs pads -> In q ((0, 0) :: flat_map slots objs) ->
+  p_valid src = true -> p_kind src = KList -> In (core src) objs ->
+  write_ptr (S f) true w (fst q) (snd q) InDst src true = Ok w' -> nsegs (w_dst w') < B32 ->
+  exists eo ep, tinv w' (objs ++ eo) (pads ++ ep).
+Proof.
+  intros QC w objs pads q src w' [H C] Hq Hv Ek Hin HW Hb. unfold B32 in *.
+  destruct (core_facts src) as (C1 & C2 & C3 & C4 & C5 & C6 & C7).
+  destruct (list_obj_facts _ _ _ _ H Hin ltac:(cbn [core p_kind]; exact Ek)) as (Sz & Wf & Fc & Fs).
+  rewrite C6 in Sz, Fc. cbn [core p_comp p_len p_off p_size p_bit] in Wf, Fc, Fs. rewrite C3 in Fs.
+  change (wc_of (core src)) with (wc_of src) in Fc.
+  assert (OB : obj_bytes src = list_allocSize src) by (unfold obj_bytes; now rewrite Ek).
+  rewrite OB in Sz, Fc. set (sz := list_allocSize src) in *.
+  destruct (hi_good _ _ _ H _ Hin) as [_ Gd]. pose proof Gd as (Sh & _ & Gi & _). apply (proj1 C7) in Sh.
+  pose proof (hi_tags _ _ _ H _ Hin) as Tg.
+  destruct (obj_bounds _ _ _ _ H Hin) as (B1 & B2 & B3 & B4 & B5). rewrite C5 in B2, B3, B4. rewrite C1 in B4. cbn [core p_seg p_off] in B1, B3, B4, B5.
+  assert (RS : r_size (obj_reg src) = padToWord sz) by (unfold obj_reg; cbn [r_size]; now rewrite OB).
+  rewrite RS in B4.
+  destruct (slot_geometry _ _ _ _ H Hq) as (Q1 & Q2 & Q3 & Q4 & _).
+  pose proof (hi_inv _ _ _ H) as Hinv.
+  unfold write_ptr in HW. cbn [write_ptr_gen] in HW. rewrite Hv, Ek in HW. cbn [negb orb bind] in HW. fold sz in HW.
+  destruct (alloc (w_dst w) (fst q) sz) as [[[m1 nsid] naddr]| |] eqn:EA; cbn [bind] in HW; try discriminate.
+  destruct (alloc_keeps _ _ _ _ _ _ Hinv Q1 (proj1 Sz) EA) as (K1 & I1 & N1 & S1 & AD & L1 & _ & _ & _ & MX).
+  unfold maxSegmentSize in MX. pose proof (zlen_nonneg (mem (w_dst w) nsid)) as Z0.
+  pose proof (padToWord_nonneg sz) as PZ.
+  set (dl0 := fun (cb : bool) (doff : Z) => mkPtr true nsid doff (p_len src) (p_size src) maxDepth KList cb (p_bit src) false).
+  set (I := fun wa : world => inv (w_dst wa) /\ 0 <= nsid < nsegs (w_dst wa)).
+  (* what follows the creation of the new list object *)
+  assert (Tail : forall cb w2 doff sz' w3, cb = p_comp src -> let dl := dl0 cb in
+     (nsegs (w_dst w2) < 4294967296 -> tinv w2 (objs ++ [core (dl doff)]) pads) -> I w2 -> nsegs (w_dst w) <= nsegs (w_dst w2) ->
+     (forall i, 0 <= i -> zlen (mem (w_dst w) i) <= zlen (mem (w_dst w2) i)) ->
+     0 <= sz' -> doff + sz' <= obj_start (dl doff) + padToWord sz -> p_off src + sz' <= zlen (mem (w_dst w) (p_seg src)) ->
+     obj_start (dl doff) = naddr -> obj_start (dl doff) <= doff -> 0 <= doff <= 4294967288 ->
+     (if p_bit src || (PointerCount (p_size src) =? 0)
+      then copy_bytes w2 InDst (p_seg src) (p_off src) nsid doff sz'
+      else fold_res (iota (Z.to_nat (list_len src))) w2
+             (fun wa i => do de <- list_struct true (dl doff) i; do se <- list_struct true src i;
+                          copy_struct_gen true f true wa de InDst se)) = Ok w3 ->
+     (do raw <- list_raw (dl doff); place w3 (fst q) (snd q) nsid naddr raw) = Ok w' ->
+     exists eo ep, tinv w' (objs ++ eo) (pads ++ ep)).
+  { intros cb w2 doff sz' w3 Ecb dl T2 I2 N02 Lm Hs0 Hrd Hrs Eos Hod Hdo E3 EP. subst cb.
+    set (cd := core (dl doff)) in *.
+    set (estep := fun (wa : world) (i : Z) => do de <- list_struct true (dl doff) i; do se <- list_struct true src i;
+                                               copy_struct_gen true f true wa de InDst se) in *.
+    destruct (list_raw (dl doff)) as [raw| |] eqn:ER; cbn [bind] in EP; try discriminate.
+    (* frame of the middle part, then the bounds *)
+    assert (M3 : I w3 /\ nsegs (w_dst w2) <= nsegs (w_dst w3)).
+    { destruct (p_bit src || (PointerCount (p_size src) =? 0)) eqn:EBP.
+      - unfold copy_bytes in E3. destruct (slice _ _ _) as [b| |] eqn:ES; cbn [bind] in E3; try discriminate.
+        unfold lift0 in E3. destruct (seg_write (w_dst w2) nsid doff b) as [m3| |] eqn:EW; cbn [bind] in E3; try discriminate.
+        apply Ok_inj in E3. subst w3. destruct I2 as [Ia Ra].
+        apply seg_write_wrote in EW; [|lia|apply (slice_len _ _ _ _ ES)].
+        assert (N : nsegs m3 = nsegs (w_dst w2)) by (unfold nsegs; apply (wrote_nsegs _ _ _ _ _ EW)).
+        unfold I. cbn [w_dst w_set_dst]. split; [split; [apply (wrote_inv _ _ _ _ _ EW); [lia|exact Ia]|lia]|lia].
+      - apply (fold_mono I (iota (Z.to_nat (list_len src))) estep) with (wa := w2); auto.
+        intros wa i wb _ [Ia Ra] E. unfold estep in E.
+        destruct (list_struct true (dl doff) i) as [de| |] eqn:ED; cbn [bind] in E; try discriminate.
+        destruct (list_struct true src i) as [se| |] eqn:ESe; cbn [bind] in E; try discriminate.
+        destruct (p_valid de) eqn:Vde.
+        2:{ destruct f; cbn [copy_struct_gen] in E; [discriminate|]. rewrite Vde in E. discriminate. }
+        destruct (list_struct_facts _ _ _ ED Vde) as (F1 & F2 & F3 & _). unfold dl, dl0 in F1, F2, F3. cbn [p_seg p_size p_off] in F1, F2, F3.
+        destruct (frame_all true f) as [_ FC].
+        assert (Wde : wf_size (p_size de)) by (rewrite F2; exact Wf).
+        assert (Rde : 0 <= p_seg de < nsegs (w_dst wa)) by (rewrite F1; exact Ra).
+        assert (Ode : 0 <= p_off de <= 4294967295) by lia.
+        assert (Sse : sz_ok se).
+        { intros Vse. destruct (list_struct_facts _ _ _ ESe Vse) as (_ & X & _). rewrite X. exact Wf. }
+        destruct (FC true wa de InDst se wb Ia Rde Wde Ode Sse E) as (_ & Ib & Nb & _).
+        split; [split; [exact Ib|lia]|exact Nb]. }
+    destruct M3 as [[I3 R3] N23].
+    destruct (place_keeps w3 (fst q) (snd q) nsid naddr raw w' I3 ltac:(lia) R3 EP) as (_ & _ & N3' & _).
+    destruct (T2 ltac:(lia)) as [H2 Cc2].
+    assert (Hcd : In cd (objs ++ [cd])) by (apply in_or_app; right; left; reflexivity).
+    assert (ROcd : r_size (obj_reg cd) = padToWord sz).
+    { unfold obj_reg, obj_bytes, cd, core, dl, dl0. cbn [r_size p_kind]. unfold list_allocSize. cbn [p_valid p_bit p_size p_len p_comp negb].
+      unfold sz, list_allocSize. rewrite Hv. reflexivity. }
+    (* data or elements *)
+    assert (T3 : exists eo ep, tinv w3 ((objs ++ [cd]) ++ eo) (pads ++ ep)).
+    { destruct (p_bit src || (PointerCount (p_size src) =? 0)) eqn:EBP.
+      - unfold copy_bytes in E3. cbn [w_segs] in E3. rewrite nth_bm_data in E3.
+        pose proof (hi_small _ _ _ H2 (p_seg src)) as SmS. unfold maxSegmentSize in SmS.
+        pose proof (Lm (p_seg src) ltac:(lia)) as LmS.
+        rewrite (slice_ok (mem (w_dst w2) (p_seg src)) (p_off src) sz') in E3 by lia. cbn [bind] in E3.
+        set (b := sub (mem (w_dst w2) (p_seg src)) (p_off src) sz') in *.
+        assert (Lb : zlen b = sz') by (apply sub_length; lia).
+        unfold lift0 in E3. destruct (seg_write (w_dst w2) nsid doff b) as [m3| |] eqn:EW; cbn [bind] in E3; try discriminate.
+        apply Ok_inj in E3. subst w3. apply seg_write_wrote in EW; [|lia|lia].
+        apply tinv_ext. split; [|exact Cc2]. cbn [w_dst w_set_dst].
+        apply (hinv_data_write (w_dst w2) (objs ++ [cd]) pads m3 cd doff b); auto.
+        + unfold cd, core, dl, dl0. cbn [p_seg]. lia.
+        + unfold cd, core, dl, dl0. cbn [p_off]. lia.
+        + rewrite Lb, ROcd. exact Hrd.
+        + intros x Hx. exfalso.
+          assert (SN : slots cd = []).
+          { destruct (list_obj_facts _ _ _ _ H2 Hcd eq_refl) as (_ & _ & _ & X). apply X.
+            unfold cd, core, dl, dl0. cbn [p_bit p_size]. destruct (p_bit src); [left; reflexivity|right]. cbn [orb] in EBP. lia. }
+          rewrite SN in Hx. destruct Hx.
+      - (* the elements are copied one by one *)
+        destruct (fold_thread I (objs ++ [cd]) pads (iota (Z.to_nat (list_len src))) estep)
+          with (wa := w2) (eo := @nil Ptr) (ep := @nil region) (w2 := w3) as (eo1 & ep1 & T3); auto; try lia.
+        + intros wa i wb _ [Ia Ra] E. unfold estep in E.
+          destruct (list_struct true (dl doff) i) as [de| |] eqn:ED; cbn [bind] in E; try discriminate.
+          destruct (list_struct true src i) as [se| |] eqn:ESe; cbn [bind] in E; try discriminate.
+          destruct (p_valid de) eqn:Vde.
+          2:{ destruct f; cbn [copy_struct_gen] in E; [discriminate|]. rewrite Vde in E. discriminate. }
+          destruct (list_struct_facts _ _ _ ED Vde) as (F1 & F2 & F3 & _). unfold dl, dl0 in F1, F2, F3. cbn [p_seg p_size p_off] in F1, F2, F3.
+          destruct (frame_all true f) as [_ FC].
+          assert (Wde : wf_size (p_size de)) by (rewrite F2; exact Wf).
+          assert (Rde : 0 <= p_seg de < nsegs (w_dst wa)) by (rewrite F1; exact Ra).
+          assert (Ode : 0 <= p_off de <= 4294967295) by lia.
+          assert (Sse : sz_ok se).
+          { intros Vse. destruct (list_struct_facts _ _ _ ESe Vse) as (_ & X & _). rewrite X. exact Wf. }
+          destruct (FC true wa de InDst se wb Ia Rde Wde Ode Sse E) as (_ & Ib & Nb & _).
+          split; [split; [exact Ib|lia]|exact Nb].
+        + intros wa eo ep [Ha _]. split; [exact (hi_inv _ _ _ Ha)|].
+          destruct (obj_bounds _ _ _ _ Ha (in_or_app _ _ _ (or_introl Hcd))) as (X & _). unfold cd, core, dl, dl0 in X. cbn [p_seg] in X. exact X.
+        + intros wa eo ep i wb _ [Ha Ca] E Hbb. unfold estep in E.
+          destruct (list_struct true (dl doff) i) as [de| |] eqn:ED; cbn [bind] in E; try discriminate.
+          destruct (list_struct true src i) as [se| |] eqn:ESe; cbn [bind] in E; try discriminate.
+          destruct (list_struct_view ((objs ++ [cd]) ++ eo) (dl doff) i de) as [Vde Kde]; auto.
+          { apply in_or_app. left. exact Hcd. }
+          destruct (list_struct_view ((objs ++ [cd]) ++ eo) src i se) as [Vse Kse]; auto.
+          { apply in_or_app. left. apply in_or_app. left. exact Hin. }
+          destruct (QC wa ((objs ++ [cd]) ++ eo) (pads ++ ep) de se wb) as (eo' & ep' & T'); auto.
+          * split; auto.
+          * intros X. apply Kde. exact X.
+          * intros X. apply Kse. exact X.
+          * exists eo', ep'. rewrite <- !app_assoc in T'. rewrite <- !app_assoc. exact T'.
+        + rewrite !app_nil_r. split; auto.
+        + unfold B32. lia.
+        + cbn [app] in T3. exists eo1, ep1. exact T3. }
+    destruct T3 as (eo & ep & [H3 Cc3]).
+    (* the pointer to the new list *)
+    assert (Hq3 : In q ((0, 0) :: flat_map slots ((objs ++ [cd]) ++ eo))) by (apply slots_app, slots_app; exact Hq).
+    assert (Hcd3 : In cd ((objs ++ [cd]) ++ eo)) by (apply in_or_app; left; exact Hcd).
+    destruct (hinv_place (w_dst w3) ((objs ++ [cd]) ++ eo) (pads ++ ep) w3 q cd raw w') as [pads' H']; auto; try lia.
+    all: try (unfold cd, core, dl, dl0; cbn [p_kind]; discriminate).
+    all: try (unfold raw_of, cd, core, dl, dl0; cbn [p_kind]; exact ER).
+    all: try (change (obj_start cd) with (obj_start (dl doff)); rewrite Eos; unfold cd, core, dl, dl0; cbn [p_seg]; exact EP).
+    exists ([cd] ++ eo), (ep ++ pads'). rewrite !app_assoc. split; [exact H'|exact Cc3]. }
+  assert (PS : sz <= padToWord sz <= sz + 7) by (unfold padToWord, u32; lia).
+  assert (ShD : forall doff, shape_ok (core (dl0 (p_comp src) doff))).
+  { intros doff. unfold shape_ok in *. unfold core, dl0. cbn [p_kind p_len p_comp p_bit p_size]. rewrite Ek in Sh.
+    unfold wc_of in *. cbn [p_size]. exact Sh. }
+  assert (ObD : forall doff, obj_bytes (core (dl0 (p_comp src) doff)) = sz).
+  { intros doff. unfold obj_bytes, core, dl0. cbn [p_kind]. unfold sz, list_allocSize. cbn [p_valid p_bit p_size p_len p_comp negb].
+    rewrite Hv. reflexivity. }
+  assert (Lm1 : forall i, 0 <= i -> zlen (mem (w_dst w) i) <= zlen (mem m1 i)) by (intros i Hi; apply (proj1 K1); exact Hi).
+  cbn [w_segs w_dst w_set_dst] in HW. rewrite nth_bm_data in HW.
+  destruct (p_comp src) eqn:Hc.
+  - (* composite list: the tag word is copied first *)
+    destruct (Fc eq_refl) as (Esz & K0 & Hoff8).
+    destruct (Tg Ek Hc) as (tag & Etag & Wtag). cbn [core p_len p_size p_seg p_off] in Etag, Wtag.
+    assert (OS : obj_start src = p_off src - 8) by (unfold obj_start; now rewrite Hc).
+    rewrite OS in B2, B3, B4.
+    assert (U8 : u32 (p_off src - 8) = p_off src - 8) by (unfold u32; lia). rewrite U8 in HW.
+    assert (RT : readRawPointer (mem m1 (p_seg src)) (p_off src - 8) = Ok tag).
+    { rewrite <- nth_bm_data. apply read_of_word_at; [|lia]. rewrite <- Wtag.
+      apply (keeps_word (w_dst w) m1 Rnone); auto; try lia; try (intros k _ X; exact X). }
+    rewrite RT in HW. cbn [bind] in HW. unfold lift0 in HW.
+    destruct (writeRawPointer m1 nsid naddr tag) as [m2| |] eqn:EW; cbn [bind] in HW; try discriminate.
+    destruct (addSize naddr 8) as [o|] eqn:EO; [|discriminate]. apply addSize_spec in EO. destruct EO as [-> EO].
+    cbn [bind] in HW. cbv beta iota in HW.
+    match type of HW with context [bind (if p_bit src || _ then ?A else ?B) _] =>
+      destruct (if p_bit src || (PointerCount (p_size src) =? 0) then A else B) as [w3| |] eqn:E3 end;
+      cbn [bind] in HW; try discriminate.
+    cbv beta iota in HW. cbn [p_comp p_off p_seg] in HW.
+    assert (S10 : 0 <= nsid) by lia.
+    destruct (writeRawPointer_keeps _ _ _ _ _ S10 I1 EW) as (K2 & I2 & N2 & _).
+    assert (W2 := EW). apply writeRawPointer_wrote in W2; [|lia].
+    assert (U2 : u32 (sz - 8) = sz - 8) by (unfold u32; lia).
+    assert (U3 : u32 (naddr + 8 - 8) = naddr) by (unfold u32; lia). rewrite U3 in HW.
+    apply (Tail true (w_set_dst (w_set_dst w m1) m2) (naddr + 8) (u32 (sz - 8)) w3); auto; cbv zeta; cbn [w_dst w_set_dst]; try lia.
+    + intros Hb2. split; [|apply cores_snoc; exact C].
+      apply (hinv_alloc_comp (w_dst w) objs pads (fst q) sz m1 nsid naddr tag m2 (core (dl0 true (naddr + 8)))); auto; try reflexivity; try lia.
+    + unfold I. cbn [w_dst w_set_dst]. split; [exact I2|lia].
+    + intros i Hi. rewrite (wrote_len _ _ _ _ _ i W2 Hi). apply Lm1. exact Hi.
+    + unfold obj_start, dl0. cbn [p_comp p_off]. lia.
+    + unfold obj_start, dl0. cbn [p_comp p_off]. lia.
+    + unfold obj_start, dl0. cbn [p_comp p_off]. lia.
+  - (* plain list *)
+    assert (OS : obj_start src = p_off src) by (unfold obj_start; now rewrite Hc).
+    rewrite OS in B2, B3, B4.
+    cbn [bind] in HW. cbv beta iota in HW.
+    match type of HW with context [bind (if p_bit src || _ then ?A else ?B) _] =>
+      destruct (if p_bit src || (PointerCount (p_size src) =? 0) then A else B) as [w3| |] eqn:E3 end;
+      cbn [bind] in HW; try discriminate.
+    cbv beta iota in HW. cbn [p_comp p_off p_seg] in HW.
+    apply (Tail false (w_set_dst w m1) naddr sz w3); auto; cbv zeta; cbn [w_dst w_set_dst]; try lia.
+    + intros Hb2. split; [|apply cores_snoc; exact C].
+      apply (hinv_alloc_obj (w_dst w) objs pads (fst q) sz m1 nsid naddr (core (dl0 false naddr))); auto; try reflexivity; try lia.
+    + unfold I. cbn [w_dst w_set_dst]. split; [exact I1|lia].
+    + unfold obj_start, dl0. cbn [p_comp p_off]. lia.
+    + unfold obj_start, dl0. cbn [p_comp p_off]. lia.
+Qed.
